@@ -199,8 +199,12 @@ class DocGen:
             else:
                 k, c = self.page(me)
             kids.append(ref(k)); count += c
-        ent = [(b'Type', name('Pages')), (b'Kids', arr(*kids)),
-               (b'Count', num(count if rng.random() < 0.92 else rng.choice([0, count + 3, -2**63, -2**63 + 1])))]
+        cnt = num(count if rng.random() < 0.92 else rng.choice([0, count + 3, -2**63, -2**63 + 1]))
+        if rng.random() < 0.1:            # Count as an indirect object (also behind a second reference object)
+            cnt = ref(self.put(cnt))
+            if rng.random() < 0.2:
+                cnt = ref(self.put(cnt))
+        ent = [(b'Type', name('Pages')), (b'Kids', arr(*kids)), (b'Count', cnt)]
         if parent:
             ent.append((b'Parent', ref(parent)))
         if rng.random() < (0.6 if parent is None else 0.3):
@@ -601,8 +605,9 @@ def gen_cases(rng, tier):
 
 
 def classify(line, tags, model_out, impl_out, verdict):
-    """a failure is a known finding when EVERY reported failure carries the tag of one (the harness decides the
-    tag by evaluating the finding's class predicate on the document before the failing call)"""
+    """no finding of C11 is open: every failure is a violation.  (An open finding is recognised by the tag [C11-<id>] the
+    harness puts in front of a failure after evaluating the finding's class predicate on the document before the failing
+    call; a failure is a known finding only when EVERY reported failure carries such a tag.)"""
     import re
     if not verdict.startswith('FAIL') or model_out != impl_out:
         return None
@@ -689,7 +694,7 @@ SPEC = {
             'with the model and the invariants are evaluated on the implementation; non-trivial = at least 2 operations; '
             'distinct = distinct case text',
     'extra_trusted': ['C11: flate2/weezl are oracles whose answers come from the case (same table as C09)'],
-    'partial_note': 'proved: allocation invariant / freshness / no collision over every program of the whole Document state (incl. add_bookmark, build_outline on every table, save, renumber with bookmarks), build_outline reserves exactly the ids it uses (with C17), pruning = unreachable, delete_object leaves no reference (+ frame, termination), I_content for add_page_contents / add_to_page_content / change_content_stream / change_page_content on plain pages (complement of the two open content classes), I_resources on every object graph for get_or_create_resources and add_graphics_state (after the repair c729297); I_count at tree level (C11_delete_pages_tree: on a page_doc -- nodes are dictionary objects with direct Kids/Count, exact Counts, Parent pointers, nothing shared, height within the limit of C12 -- delete_pages(ns) neither panics nor hangs, every Pages Count is again the number of leaves, page list = old list minus the pages NUMBERED ns in the original numbering, repeats / out-of-range numbers included); add_xobject with an indirect XObject entry under xobject_typed (name not Parent/Resources; name new in the target, or the target is the Resources dictionary of no node; alias witness shows the condition is needed); frames for every non-deleting operation (C11_frame_content_ops, C11_frame_keeping_ops). Still open: the two known findings (content-indirect, content-shared) with class predicates and computed witnesses; outside the proved domains the clauses are decided on the implementation after every step by the harness and tied to the model by correspondence',
+    'partial_note': 'proved: allocation invariant / freshness / no collision over every program of the whole Document state (incl. add_bookmark, build_outline on every table, save, renumber with bookmarks), build_outline reserves exactly the ids it uses (with C17), pruning = unreachable, delete_object leaves no reference (+ frame, termination), I_content for add_page_contents / add_to_page_content / change_content_stream / change_page_content on EVERY page with a Contents of any shape (stream or array behind references, the page behind reference objects; after the repairs of C11-content-indirect and C11-content-shared: no class excluded; other pages are unchanged when their content is defined), I_resources on every object graph for get_or_create_resources and add_graphics_state (after the repair c729297); I_count at tree level (C11_delete_pages_tree: on a page_doc -- nodes are dictionary objects with direct Kids/Count, exact Counts, Parent pointers, nothing shared, height within the limit of C12 -- delete_pages(ns) neither panics nor hangs, every Pages Count is again the number of leaves, page list = old list minus the pages NUMBERED ns in the original numbering, repeats / out-of-range numbers included); add_xobject with an indirect XObject entry under xobject_typed (name not Parent/Resources; name new in the target, or the target is the Resources dictionary of no node; alias witness shows the condition is needed); frames for every non-deleting operation (C11_frame_content_ops, C11_frame_keeping_ops). No finding is open; outside the proved domains the clauses are decided on the implementation after every step by the harness and tied to the model by correspondence',
 }
 
 
@@ -708,8 +713,9 @@ MANIFEST = {
                   'directly on the implementation after every step.',
     'level_note': 'Trusted: Coq kernel; hand-written model Model/Edit.v tied by correspondence (observable: returned values and the '
                   'canonical dump of objects, trailer, max_id after every call); flate2 as an oracle whose answers come from the case; '
-                  'extraction/OCaml driver; Rust harness. Five defects repaired in /repo (four in delete_object, inherited resources shadowed by '
-                  'get_or_create_resources); two open known findings (Contents as indirect array, shared content stream) with class predicates.',
+                  'extraction/OCaml driver; Rust harness. Seven defects repaired in /repo (four in delete_object, inherited resources shadowed by '
+                  'get_or_create_resources, Contents behind references in add_page_contents / change_page_content, a content stream shared '
+                  'with another page rewritten in place by change_page_content); no open finding.',
     'technique': 'Coq proof by invariants over fold_left step + differential correspondence after every step + direct verdicts',
     'design_ref': 'DESIGN.md 6 C11',
 }
